@@ -790,6 +790,11 @@ func monitorGradient(line string, rect image.Rectangle, smp []image.Point, cs []
 				}
 			}
 			pending = nil
+		} else if c.Name == "Z" && len(rec.Paints) == nDraw && pending != nil {
+			// the register machine prescribes a gradient paint for this path (valid gradient configuration, level of
+			// detail in range) and the Renderer drew nothing (round 6, C19-L: configurations whose stop registers wrap past 63
+			// refused by the Renderer alone)
+			return append(fails, Failure{"C15.gradient-painted", line, fmt.Sprintf("path ending at call %d: the registers hold a valid gradient for it and nothing was drawn", i)})
 		}
 	}
 	return
